@@ -18,6 +18,8 @@ ZJ(z) == z
 CaseOf ==
   CASE last.op \in {"add", "subtract"} -> [op |-> "Zoned." \o last.op, cls |-> Cls, args |-> [zone |-> last.z, t |-> last.t, dur |-> last.dur, ovf |-> last.ovf], out |-> last.out]
     [] last.op \in {"until", "since"} -> [op |-> "Zoned." \o last.op, cls |-> Cls, args |-> [zone |-> last.z, t |-> last.t, other |-> last.t2, st |-> [largest |-> last.lg]], out |-> last.out]
+    [] last.op = "withPlainTime" -> [op |-> "Zoned.withPlainTime", cls |-> Cls \o "/" \o Classify(last.z, (Wall(last.z, last.t) \div 86400) * 86400 + last.sod),
+                                     args |-> [zone |-> last.z, t |-> last.t, sod |-> last.sod], out |-> last.out]
     [] last.op = "startOfDay" -> [op |-> "Zoned.startOfDay", cls |-> Cls, args |-> [zone |-> last.z, t |-> last.t], out |-> last.out]
     [] last.op = "dayLength" -> [op |-> "Zoned.hoursInDay", cls |-> Cls \o (IF last.out.val % 3600 = 0 THEN "/whole-hours" ELSE "/fractional-hours"),
                                  args |-> [zone |-> last.z, t |-> last.t], out |-> IF last.out.val % 3600 = 0 THEN Ok(last.out.val \div 3600) ELSE [kind |-> "any"]]
